@@ -228,6 +228,7 @@ def run_write(ctx, case):
         mclasses.append(mstyle)
     ctx.feature(("write", len(shape), case["n"], tuple(sorted(set(str(a.dtype) for a in arrays))), tuple(sorted(set(mclasses))), case["crs"]))
     digests_before = [arr.digest(a) for a in arrays]
+    _orig = [a.copy() for a in arrays]
     opath = os.path.join(d, "out.nc")
     out = arr.invoke(prog, "EEMSWrite", "W", {"OutFileName": opath, "OutFieldNames": list(names), "DimensionFileName": tpath, "DimensionFieldName": "tmpl"})
     mkey = "first-" + mclasses[0] + ("+later-mask" if any(m == "random" for m in mclasses[1:]) else "")
@@ -281,6 +282,21 @@ def run_write(ctx, case):
         ok = numpy.ma.getdata(res)[~union] == numpy.ma.getdata(a)[~union].astype(res.dtype)
         if not ok.all():
             ctx.fail("roundtrip:values-differ", {"variable": nm, "written": arr.describe(a, 8), "read": arr.describe(res, 8)})
+            return
+    # second step of the history: each result written again on its own, after the joint write
+    for k, nm in enumerate(names[:2]):
+        a = arrays[k]
+        p2 = os.path.join(d, "alone%d.nc" % k)
+        o = arr.invoke(prog, "EEMSWrite", "W_alone%d" % k, {"OutFileName": p2, "OutFieldNames": [nm], "DimensionFileName": tpath, "DimensionFieldName": "tmpl"})
+        if not o.ok:
+            ctx.fail("write:second-write-raises-%s" % (o.inner() or o.err), {"error": str(o.exc)[:300]})
+            return
+        r = arr.invoke(prog, "EEMSRead", "Alone%d" % k, {"InFileName": p2, "InFieldName": nm, "DataType": "Integer" if a.dtype.kind in "iu" else "Float"})
+        ctx.count("union_mask_checks")
+        own = [bool(x) for x in numpy.ma.getmaskarray(_orig[k]).ravel()]
+        if not r.ok or [bool(x) for x in numpy.ma.getmaskarray(r.value).ravel()] != own:
+            ctx.fail("sequence:result-written-alone-after-joint-write-has-foreign-missing-cells", {"variable": nm, "masks": mclasses, "n": len(names),
+                                                                                                  "read": arr.describe(r.value, 8) if r.ok else r.err})
             return
     if [arr.digest(a) for a in arrays] != digests_before:
         ctx.dontcare("writer modified a written result (judged by C09)")
